@@ -171,6 +171,16 @@ func (m *Model) Expect(c mach.Call) Expect {
 			return no("not a signing phase")
 		}
 		return Expect{OK: true, Phase: m.Phase}
+	case mach.SigFault:
+		// Sig() while the signer is broken: fails unless the own signature exists
+		// already (then it is returned without asking the signer)
+		if !signingPhase(m.Phase) {
+			return no("not a signing phase")
+		}
+		if m.StSigs[m.Own] == nil {
+			return no("the signer fails")
+		}
+		return Expect{OK: true, Phase: m.Phase}
 	case mach.AddSig:
 		if !signingPhase(m.Phase) {
 			return no("not a signing phase")
